@@ -652,19 +652,25 @@ example : (fbEx.map (·.p)).Nodup ∧ (∀ q ∈ fbEx.drop 1, q.p ≠ 2) ∧
 /-! ### MPQS -/
 
 open Ymq.MpqsPoly Ymq.PolyMpqs in
-/-- `hensel_lift`: the arithmetic of `make_poly`. For `r² ≡ n (mod D)`, `r² ≤ n` and `i` an inverse of
-`2r` modulo `D`: `b = r + (((n − r²)/D mod D)·i mod D)·D` satisfies `b² ≡ n (mod D²)`; and this is the
-value the model computes (`henselB`), so the code's `debug_assert!((b * b) % (d * d) == n % (d * d))`
-cannot fail. `D` need not be prime (composite pseudo-squares are covered). -/
+/-- `hensel_lift`: the arithmetic of `make_poly`. For `r² ≡ n (mod D)` and `i` an inverse of `2r` modulo `D`:
+`b = r + ((c·i) mod D)·D` satisfies `b² ≡ n (mod D²)`, where `c = ((n − r²)/D) mod D` when `r² ≤ n` and
+`c = (D − ((r² − n)/D) mod D) mod D` when `r² > n` (tiny `n`: the branch the code takes since the repair of the
+`n − h1*h1` underflow); and this is the value the model computes (`henselB`), so the code's
+`debug_assert!((b * b) % (d * d) == n % (d * d))` cannot fail. `D` need not be prime (composite pseudo-squares
+are covered). -/
 theorem hensel_lift (n d r : Nat) :
     (∀ i, 0 < d → r * r % d = n % d → r * r ≤ n → 2 * r * i % d = 1 % d →
       (r + (n - r * r) / d % d * i % d * d) * (r + (n - r * r) / d % d * i % d * d) % (d * d)
         = n % (d * d)) ∧
+    (∀ i, 0 < d → r * r % d = n % d → n < r * r → 2 * r * i % d = 1 % d →
+      (r + (d - (r * r - n) / d % d) % d * i % d * d) * (r + (d - (r * r - n) / d % d) % d * i % d * d) % (d * d)
+        = n % (d * d)) ∧
     (∀ b, henselB n d r = some b → b * b % (d * d) = n % (d * d)) :=
-  ⟨fun i hd hr hle hi => hensel n d r i hd hr hle hi, fun _ h => henselB_sq h⟩
+  ⟨fun i hd hr hle hi => hensel n d r i hd hr hle hi, fun i hd hr hlt hi => hensel_neg n d r i hd hr hlt hi,
+    fun _ h => henselB_sq h⟩
 
 open Ymq.MpqsPoly in
-example : henselB 1000003000009 211 58 = some 43313 := by decide +kernel
+example : henselB 1000003000009 211 58 = some 43313 ∧ (henselB 55019 307 251).isSome = true := by decide +kernel
 
 open Ymq.MpqsPoly Ymq.PolyMpqs in
 /-- `mpqs_identity`: every polynomial returned by the model of `make_poly` has `A = D²` and satisfies
@@ -701,7 +707,8 @@ open Ymq.MpqsPoly Ymq.PolyMpqs in
 `r < D`, `r² ≡ n (mod D)`, `gcd(2r, D) = gcd(D, n) = 1` (what `sieve_for_polys` checks before it emits `(D, r)`;
 `D` need not be prime), `r² ≤ n` (implied by `D² ≤ n`), and `n < 2^254·D²` (for `n < 2^448`, the guard of `mpqs`,
 this holds as soon as `D ≥ 2^97`, far below the values `≈ (2n)^(1/4)/√(M/2)` the driver uses; it also holds for
-every `n < 2^254`). Outside (`r² > n`, corpus seeds `!chk mpqs_poly 55019 …`) the subtraction underflows. -/
+every `n < 2^254`). (`r² ≤ n` is kept as a hypothesis here; for `r² > n` the code used to underflow and now takes the
+second branch of `hensel_lift`: corpus seeds `mpqs_poly 55019 1 40 32768 307`.) -/
 theorem make_poly_total (n d r : Nat) (hd1 : 1 < d) (hdodd : d % 2 = 1) (hd : d < 2 ^ 127) (hr : r < d)
     (hsq : r * r % d = n % d) (hle : r * r ≤ n) (hg1 : Nat.gcd (2 * r) d = 1) (hg2 : Nat.gcd d n = 1)
     (hn1 : 1 < n) (hnd : n < 2 ^ 254 * (d * d)) : ∃ pol, makePoly n d r = some pol :=
